@@ -400,6 +400,10 @@ func (g *genPkg) genFunc(fi *FuncInfo, specNames map[string]bool) error {
 		c.GoName = g.fresh(base + "_ens")
 		g.emitBoolFunc(c.GoName, fi.TParams, post, c.Expr, c.Line, "ensures")
 	}
+	for _, c := range fc.PanicsIf {
+		c.GoName = g.fresh(base + "_panics")
+		g.emitBoolFunc(c.GoName, fi.TParams, pre, c.Expr, c.Line, "panics_if")
+	}
 	for _, c := range fc.Assumes {
 		c.GoName = g.fresh(base + "_asm")
 		g.emitBoolFunc(c.GoName, fi.TParams, post, c.Expr, c.Line, "assumes")
